@@ -230,12 +230,15 @@ func (p *Proof) VerifyWithChallenge(pk *gabikeys.PublicKey, reconstructedChallen
 	if (*proof)(p).ProofResult("alpha").Cmp(Parameters.bTwoZk) > 0 {
 		return false
 	}
+	if p.SignedAccumulator == nil {
+		return false
+	}
 	acc, err := p.SignedAccumulator.UnmarshalVerify(pk)
 	if err != nil {
 		return false
 	}
 	p.acc = acc
-	if p.Nu.Cmp(p.acc.Nu) != 0 {
+	if p.acc.Nu == nil || p.Nu.Cmp(p.acc.Nu) != 0 {
 		return false
 	}
 	return p.Challenge.Cmp(reconstructedChallenge) == 0
